@@ -59,7 +59,10 @@ def run(ck, facts, tier):
         all_some = vkey(Sym("forall", vkey(RATES), vkey(Sym("optcase", "map_or", vkey(dset), (vkey(Sym("bool", "false")),),
                                                                 vkey(cel.eq_sym(Sym("payload", vkey(dset), 0), date))))))
         all_none = vkey(Sym("forall", vkey(RATES), vkey(Sym("m", "is_none", vkey(dset), ()))))
+        # the same guard written as Option equality: every quote's settlement == the first quote's settlement (Some(v) == Some(d) iff v == d; None == None; mixed unequal)
+        all_eq = vkey(Sym("forall", vkey(RATES), vkey(cel.eq_sym(dset, first))))
         ps = paths.flatten(got)
+        eq_form = any(all_eq in dict(c) for c, _ in ps) and not any(some_arm in dict(c) for c, _ in ps)
         errs = [(dict(c), v) for c, v in ps if isinstance(v, Sym) and v.tag[:2] == ("ctor", "Err")]
         oks = [(dict(c), v) for c, v in ps if isinstance(v, Sym) and v.tag[:2] == ("ctor", "Ok")]
         def has_err(pred):
@@ -70,10 +73,10 @@ def run(ck, facts, tier):
         ck.check(r1, "try_new[%s]:overspecified" % base_name, has_err(lambda c: c.get(over) is over_p and c.get(under) is (not under_p)),
                  "n_currencies < n_quotes + 1 is not rejected", where, sample="q < n + 1 -> Err")
         want_fx = Sym("create_fx_array", vkey(cur), vkey(RATES), vkey(Sym("ctor", "One")))
-        okok = len(oks) == 2
+        okok = len(oks) == (1 if eq_form else 2)
         for c, v in oks:
             okok = okok and c.get(empty) is False and c.get(under) is (not under_p) and c.get(over) is (not over_p) and \
-                ((c.get(some_arm) is True and c.get(all_some) is True) or (c.get(some_arm) is False and c.get(all_none) is True))
+                ((c.get(some_arm) is True and c.get(all_some) is True) or (c.get(some_arm) is False and c.get(all_none) is True) or (eq_form and c.get(all_eq) is True))
             x = v.tag[2] if len(v.tag) == 3 else None
             okok = okok and isinstance(x, Rec) and vkey(x.fields.get("fx_rates")) == vkey(RATES) and vkey(x.fields.get("currencies")) == vkey(cur) and \
                 vkey(x.fields.get("fx_array")) == vkey(want_fx)
@@ -82,6 +85,14 @@ def run(ck, facts, tier):
         if base_name == "no base":
             s_err = [c for c, _ in errs if c.get(some_arm) is True]
             n_err = [c for c, _ in errs if c.get(some_arm) is False]
+            if eq_form:
+                e_err = [c for c, _ in errs if all_eq in c]
+                okq = len(e_err) == 1 and e_err[0].get(all_eq) is False
+                ck.check(r7, "settlement[first is Some]", okq, "guard is not: every quote's settlement equals the first quote's settlement", where, detail=str(e_err)[:500],
+                         sample="any(|d| d.settlement != first.settlement) -> Err")
+                ck.check(r7, "settlement[first is None]", okq, "guard is not: every quote's settlement equals the first quote's settlement", where, detail=str(e_err)[:500],
+                         sample="any(|d| d.settlement != first.settlement) -> Err")
+                continue
             ck.check(r7, "settlement[first is Some]", len(s_err) == 1 and s_err[0].get(all_some) is False, "guard is not: every quote's settlement equals the first quote's date",
                      where, detail=str(s_err)[:500], sample="!all(|d| d.settlement.map_or(false, |v| v == date)) -> Err")
             ck.check(r7, "settlement[first is None]", len(n_err) == 1 and n_err[0].get(all_none) is False, "guard is not: every quote's settlement is None", where,
@@ -102,12 +113,16 @@ def run(ck, facts, tier):
     except Unsupported as e:
         ck.fail(r4, "create_initial_edges", "rule could not be established (%s)" % e)
     try:
-        m0 = cel.Ev(facts, hooks=hk).apply_fn(FX + "create_initial_fx_array", [CUR, PAIRS, RATES], 0)
+        # walking the quote list itself (`zip(fx_rates)`) reaches the same element as `fx_rates[i]`
+        hk2 = dict(hk, **{"@elem": lambda cont: (lambda idx: Poly.atom(("call", "index", (vkey(RATES), idx.key())))) if vkey(cont) == vkey(RATES) else hk["@elem"](cont)})
+        m0 = cel.Ev(facts, hooks=hk2).apply_fn(FX + "create_initial_fx_array", [CUR, PAIRS, RATES], 0)
         # the leading `assert_eq!(fx_pairs.len(), fx_rates.len())` may abort: the returning path is judged
         live = [v for _, v in paths.flatten(cel.strip_early(m0)) if not (isinstance(v, Sym) and v.tag[:1] == ("diverges",))]
         m0 = live[0] if len(live) == 1 else m0
         w = writes_of(m0) if isinstance(m0, Arr) else {}
-        # enumerate(): i0 indexes both the pair list and the quote list
+        # enumerate() + index or zip(): i0 indexes both the pair list and the quote list (their lengths are equal, asserted on entry or by the caller's construction)
+        zk = vkey(Sym("zip", vkey(PAIRS), vkey(RATES)))
+        w = {(k[0], k[1], tuple(vkey(PAIRS) if l == zk else l for l in k[2])): v for k, v in w.items()}
         rate_i = Poly.atom(("call", "index", (vkey(RATES), Poly.atom("i0").key())))
         want = {((vkey(row), vkey(col)), (), (vkey(PAIRS),)): rate_i, ((vkey(col), vkey(row)), (), (vkey(PAIRS),)): rate_i.inv()}
         ck.check(r2, "create_initial_fx_array", isinstance(m0, Arr) and vkey(m0.base) == vkey(Sym("eye")) and {k: vkey(v) for k, v in w.items()} == {k: vkey(v) for k, v in want.items()},
